@@ -6,4 +6,5 @@ let () =
   | _ :: "str" :: _ -> D_str.run ()
   | _ :: "hashfn" :: _ -> D_hashfn.run ()
   | _ :: "vec" :: _ -> D_vec.run ()
+  | _ :: "alloc" :: _ -> D_alloc.run ()
   | _ -> prerr_endline "usage: driver <area> < ops"; exit 2
